@@ -353,8 +353,31 @@ class Pair:
             (a, ca), (b, cb) = fa.result(), fb.result()
         return a, b, ca, cb
 
-    def diff(self, scripts, shards=None):
-        """Returns list of (script index, line index, impl line, model line)."""
+    def diff(self, scripts, shards=None, model_first=False):
+        """Returns list of (script index, line index, impl line, model line).
+
+        model_first: run the model first and do not send to the implementation the scripts on which the
+        model declines (`unmodelled`, `mmio`): such a case cannot be compared, and on the real code it may
+        leave peripheral state behind (a store into the MMIO window) that would leak into later cases of
+        the same harness process."""
+        if model_first:
+            b, cb = run_scripts(self.model, scripts, shards)
+            if cb:
+                raise RuntimeError("model driver crashed: %r" % (cb[:1],))
+            keep = [i for i, r in enumerate(b) if not any(l.startswith(SKIP_MODEL) for l in r)]
+            a_k, ca = run_scripts(self.impl, [scripts[i] for i in keep], shards)
+            a = [["<skipped>"] * len(s) for s in scripts]
+            for j, i in enumerate(keep):
+                a[i] = a_k[j]
+            ca = [(keep[i], e) for i, e in ca]
+            bad = []
+            for i in keep:
+                k = compare_script(scripts[i], a[i], b[i])
+                if k is not None:
+                    bad.append((i, k, a[i][k] if k < len(a[i]) else "<no-output>",
+                                b[i][k] if k < len(b[i]) else "<no-output>"))
+            self.skipped = len(scripts) - len(keep)
+            return bad, a, b, ca
         a, b, ca, cb = self.run(scripts, shards)
         if cb:
             raise RuntimeError("model driver crashed: %r" % (cb[:1],))
